@@ -55,7 +55,7 @@ def gen_cases(tier, seed):
     fams = ["exact-chain", "lut-stress", "cpu-mix", "approx-tail", "buffer-stress", "alias-stress", "stripe-stress", "exact-dag"]
     n_hist = 64 if q else 800
     for i in range(n_hist):
-        kind = ["AA", "AB", "twins", "entry-mix", "acc-mix", "long", "twins-entry-mix", "entry-mix"][i % 8]
+        kind = ["AA", "AB", "twins", "entry-mix", "acc-mix", "long", "twins-entry-mix", "entry-mix", "greedy-ties", "limits"][i % 10]
         cases.append({"part": "history", "kind": kind, "seed": int(seed * 7919 + i), "fam": fams[i % len(fams)], "fam2": fams[(i * 3 + 1) % len(fams)]})
     n_hs = 16 if q else 64
     for i in range(n_hs):
@@ -141,7 +141,28 @@ def run_case(case):
     else:
         kind = case["kind"]
         sets["history_kinds"].add(kind)
-        if kind in ("twins", "twins-entry-mix"):
+        if kind == "greedy-ties":
+            # several arena tensors with identical lifetime and size (equally shaped inputs of one operator): any order the allocator derives from object
+            # identities instead of a total order shows up as different addresses between repeats
+            r2 = netgen.rng_for("ties", case["seed"])
+            g2 = netgen.G(r2, "int8")
+            shp = [1, int(r2.choice([4, 8])), int(r2.choice([4, 8])), int(r2.choice([8, 16]))]
+            ins = [g2.input(shp) for _ in range(int(r2.integers(2, 5)))]
+            acc_ = ins[0]
+            for x_ in ins[1:]:
+                acc_ = g2.eltwise(str(r2.choice(["add", "mul", "sub"])), acc_, x_)
+            A = g2.finish([g2.conv(acc_, 8, 1, 1, netgen.PAD_SAME, 0)], "ties", "exact")
+            B = netgen.make(case["fam2"], case["seed"] + 1)
+        elif kind == "limits":
+            # a very deep chain needs more interpreter recursion than the default --recursion-limit allows; whether it compiles must not depend on what ran before
+            r2 = netgen.rng_for("deep", case["seed"])
+            g2 = netgen.G(r2, "int8")
+            x_ = g2.input([1, 1, 1, 8], scale=0.05, zp=0)
+            for _ in range(int(r2.choice([1500, 1700]))):
+                x_ = g2.eltwise("add", x_, g2.const_act([1, 1, 1, 8]), oscale=0.05, ozp=0)
+            B = g2.finish([x_], "deep", "exact")
+            A = netgen.make("tiny", case["seed"])
+        elif kind in ("twins", "twins-entry-mix"):
             A, B = twin_net(case["seed"], 0), twin_net(case["seed"], 1)
             counters["twins"] += 1
         else:
@@ -149,7 +170,14 @@ def run_case(case):
         ma, mb = write_model(d, "a", A), write_model(d, "b", B)
         cfgA = cfggen.rand_cfg(rng)
         cfgB = dict(cfgA) if kind != "acc-mix" else cfggen.rand_cfg(rng)
-        if kind == "AA":
+        if kind == "greedy-ties":
+            cfgA = dict(cfgA, allocator="Greedy")
+            seq = [("main", ma, cfgA)] * 3 + [("main", mb, cfgB), ("main", ma, cfgA), ("main", ma, cfgA)]
+        elif kind == "limits":
+            base_cfg = {"acc": cfgA["acc"], "mode": None, "optimise": "Performance", "allocator": "HillClimb"}
+            seq = [("main", ma, dict(base_cfg, flags=["--recursion-limit", "20000"])), ("main", mb, base_cfg), ("main", ma, base_cfg), ("main", mb, base_cfg)]
+            counters["limit_histories"] = counters.get("limit_histories", 0) + 1
+        elif kind == "AA":
             seq = [("main", ma, cfgA), ("main", ma, cfgA)]
         elif kind in ("AB", "twins", "acc-mix"):
             seq = [("main", ma, cfgA), ("main", mb, cfgB)]
@@ -179,7 +207,12 @@ def run_case(case):
                     base_cache[bk] = baseline(m, c, "main", "b%d" % len(base_cache))
                 b = base_cache[bk]
                 if not b["ok"]:
-                    continue  # not compilable on its own: C13's business
+                    if r["ok"]:
+                        # not compilable on its own (C13's business) - but then it must not compile after some history either
+                        v("step-succeeds-only-after-history:%s" % e, "step %d (%s %s) compiles after %s but fails in a fresh process (%s)" % (
+                            i, e, os.path.basename(m), [(x[0], os.path.basename(x[1])) for x in seq[:i]], (b.get("error") or "?")[:80]), wit)
+                    counters["steps_failing_alone_compared"] = counters.get("steps_failing_alone_compared", 0) + 1
+                    continue
                 if not r["ok"]:
                     mech = "step-fails-only-after-history:%s:%s" % (e, r.get("mech") or (r.get("error") or "?").split(":")[0])
                     v(mech, "step %d (%s %s) fails after %s but compiles in a fresh process: %s" % (i, e, os.path.basename(m), [(x[0], os.path.basename(x[1])) for x in seq[:i]], r.get("error")), wit)
@@ -208,7 +241,7 @@ def run_case(case):
 def summarise(agg, tier):
     q = tier == "quick"
     return {
-        "thresholds": {"histories": 50 if q else 650, "history_steps": 130 if q else 1800, "twins": 8 if q else 100, "hash_seed_runs": 25 if q else 200, "entry_point_mixes": 12 if q else 150, "caller_buffers_compared": 15 if q else 200,
+        "thresholds": {"histories": 50 if q else 650, "history_steps": 150 if q else 2000, "twins": 8 if q else 100, "hash_seed_runs": 25 if q else 200, "entry_point_mixes": 10 if q else 120, "caller_buffers_compared": 12 if q else 150, "limit_histories": 4 if q else 50, "steps_failing_alone_compared": 6 if q else 80,
                        "byte_comparisons": 120 if q else 1800},
         "rule": "histories of 2-6 compilations in one fresh process: A;A, A;B, twins (identical LUT contents / constants / names), mixed entry points (CLI main, convert, "
                 "convert_bytes with the options those hard-wire), mixed accelerators/configurations, long random sequences, optionally with another user of the global `random` "
